@@ -1777,10 +1777,21 @@ func (p *prover) candidates(fn *ssa.Function) []cand {
 					add(blk, t, zeroT(), k)
 				}
 			}
-			// other phis of the block
+			// other phis of the block (also with the difference of their constant initial values)
 			for _, q := range phis {
 				if q != ph {
 					add(blk, t, valT(q), 0)
+					for _, e1 := range ph.Edges {
+						k1, ok1 := constInt(e1)
+						if !ok1 {
+							continue
+						}
+						for _, e2 := range q.Edges {
+							if k2, ok2 := constInt(e2); ok2 && k1-k2 != 0 && k1-k2 >= -4 && k1-k2 <= 4 {
+								add(blk, t, valT(q), k1-k2)
+							}
+						}
+					}
 				}
 			}
 			// comparisons of the counter
